@@ -583,6 +583,18 @@ func (c *child) do(line string) string {
 				return true
 			})
 		}
+		if err == nil && c.apiMode {
+			// config.start() fires a "config change" event whose goroutine may run only after api.start() has
+			// registered its hook; that healthy hook run is then a short-lived worker of the api module.
+			// Let it pass: wait until the api module has been idle for a while.
+			idleSince := time.Now()
+			waitUntil(settleTimeout, func() bool {
+				if c.counters() != (cnt{}) {
+					idleSince = time.Now()
+				}
+				return time.Since(idleSince) > 60*time.Millisecond
+			})
+		}
 		return fmt.Sprintf("start ret=%s reps=%s", ctrlRetStr(err), c.drain())
 
 	case "manage":
